@@ -21,6 +21,7 @@ import (
 //@   props C05
 //@   oracle
 //@   covers osm.OSM).UnmarshalJSON
+//@   covers (schema)C05#
 //@   covers osm.Members
 //@   covers osm.WayNodes
 //@   covers osm.marshalJSON
